@@ -79,9 +79,9 @@ def object_events(entry, enc, tid0, rng, quick, run):
         except Exception as e:
             run.violate(dname, "decoder_construction_raised", dict(entry.config(), decoder=dname), {"object": entry.name, "error": repr(e)[:200]})
             continue
-        budget = (400 if dname in slow else 3000) if quick else (500 if dname in slow else 3000)
+        budget = (400 if dname in slow else 3000) if quick else (400 if dname in slow else 3000)
         if dname == "BerlekampMasseyDecoder" and n > 15 and not quick:
-            budget = 120                        # pure-Python field arithmetic: ~50 ms per word at n = 31
+            budget = 80                         # pure-Python field arithmetic: ~50 ms per word at n = 31
         if entry.component in ("ReedSolomonCodeEncoder",) or dname == "ReedMullerDecoder":
             budget = min(budget, 200)           # components with a listed finding: enough cases to re-confirm it
         pats = patterns(n, t, 200 if not quick else 60, rng)
@@ -225,7 +225,7 @@ def run(run):
     if dec_ev:
         run.sample(dec_ev[0])
         run.sample(dec_ev[len(dec_ev) // 2])
-    if not mism and not run.only:
+    if not run.only and not [m for m in mism if m[1] <= 30]:        # the self-test slice (the first 30 events) was accepted
         def corrupt(ev2):
             i = next(i for i, e in enumerate(ev2) if e["ev"] == "Decode" and not e["raised"])
             ev2[i]["out"] = [ev2[i]["out"][0] ^ 1] + ev2[i]["out"][1:]
